@@ -289,9 +289,10 @@ func (runInfo *runInfoStruct) invokeAddrExpr(expr *ast.AddrExpr) {
 		return
 	}
 
-	if runInfo.rv.CanAddr() {
+	if runInfo.rv.CanAddr() && !(runInfo.rv.Kind() == reflect.Interface && runInfo.rv.IsNil()) {
 		runInfo.rv = runInfo.rv.Addr()
 	} else {
+		// also for nil: the nil value is shared by every run, its address must not be handed out
 		i := runInfo.rv.Interface()
 		runInfo.rv = reflect.ValueOf(&i)
 	}
